@@ -540,6 +540,33 @@ func buildIdioms() []idiom {
 		add("cycle-last-ref-array-values", selfArr(o).ops(opcode.VALUES, opcode.DROP, opcode.DEPTH))
 		add("cycle-last-ref-array-reverse", selfArr(o).ops(opcode.REVERSEITEMS, opcode.DEPTH))
 	}
+	// cycles through two containers: A = [X] where X (array / struct / map) holds A;
+	// the element goes away inside a collection instruction whose argument is the
+	// last outside reference to A
+	twoStep := map[string][]opcode.Opcode{
+		"array":  {opcode.NEWARRAY0, opcode.DUP, opcode.DUP, opcode.PUSH1, opcode.PACK, opcode.APPEND},
+		"struct": {opcode.NEWARRAY0, opcode.DUP, opcode.DUP, opcode.PUSH1, opcode.PACKSTRUCT, opcode.APPEND},
+		"map":    {opcode.NEWARRAY0, opcode.NEWMAP, opcode.DUP, opcode.PUSH0, opcode.PUSH3, opcode.PICK, opcode.SETITEM, opcode.OVER, opcode.SWAP, opcode.APPEND},
+	}
+	for _, kind := range []string{"array", "struct", "map"} {
+		seq := twoStep[kind]
+		mk := func() *asm { return newAsm().ops(seq...) }
+		add("cycle2-"+kind+"-remove", mk().ops(opcode.PUSH0, opcode.REMOVE, opcode.DEPTH))
+		add("cycle2-"+kind+"-remove-kept-copy", mk().ops(opcode.DUP, opcode.PUSH0, opcode.REMOVE, opcode.DEPTH))
+		add("cycle2-"+kind+"-setitem", mk().ops(opcode.PUSH0, opcode.PUSH7, opcode.SETITEM, opcode.DEPTH))
+		add("cycle2-"+kind+"-setitem-kept-copy", mk().ops(opcode.DUP, opcode.PUSH0, opcode.PUSH7, opcode.SETITEM, opcode.DEPTH))
+		add("cycle2-"+kind+"-popitem", mk().ops(opcode.POPITEM, opcode.DROP, opcode.DEPTH))
+		add("cycle2-"+kind+"-clearitems", mk().ops(opcode.CLEARITEMS, opcode.DEPTH))
+		add("cycle2-"+kind+"-unpack", mk().ops(opcode.UNPACK, opcode.CLEAR, opcode.DEPTH))
+		add("cycle2-"+kind+"-inner-then-outer", mk().ops(opcode.DUP, opcode.PUSH0, opcode.PICKITEM, opcode.SWAP, opcode.PUSH0, opcode.REMOVE, opcode.DROP, opcode.DEPTH))
+		// several rounds, then the item limit: an under-counting counter lets more
+		// than 2048 items live
+		a := newAsm()
+		for range 8 {
+			a.ops(seq...).ops(opcode.PUSH0, opcode.REMOVE)
+		}
+		add("cycle2-"+kind+"-remove-x8-then-fill", a.push(2047).op(opcode.NEWARRAY).ops(opcode.UNPACK))
+	}
 	// driving the counter down and then exceeding the item limit
 	add("cycle-last-ref-map-remove-loop-then-fill", newAsm().op(opcode.INITSSLOT, 1).push(3000).op(opcode.STSFLD0).label("L").
 		ops(opcode.NEWMAP, opcode.DUP, opcode.PUSHF, opcode.PUSH2, opcode.PICK, opcode.SETITEM, opcode.PUSHF, opcode.REMOVE).
